@@ -14,6 +14,7 @@ RULE = ("70% directed smart-sleep scenarios (harness/gen/scenarios.sleep_history
         "the monitor c07 and on the extracted model; non-trivial = distinct history in which at least one string was withheld "
         "for a sleeping node, at least one string left in a wake-up burst and at least one string left for another, awake node "
         "while some node slept")
+RULE += ' MONITORS ONLY: harness/impl/wire.py - the real Transport.send and line protocol over a recording writer, the link lost and made again around a wake-up (128 variants: flavour x version x held commands x loss point x cause): nothing for the sleeping node reaches the wire when the connection is back.'
 ASSUMPTIONS = ["'sleeping' is read as `sensor.is_smart_sleep_node` before the line is processed (asyncio) / when the send job "
                "was enqueued (threaded flavour, followed by monitors.Tracker)",
                "node 0 (the gateway itself, target of the TCP watchdog probe) never announces smart sleep",
